@@ -599,7 +599,10 @@ class Interp:
             return dedupe(out)
         if isinstance(e, (ast.List, ast.Tuple, ast.Set)):
             out = []
-            for r in self.eval_list([x.value if isinstance(x, ast.Starred) else x for x in e.elts], st, fr):
+            parts_ = self.eval_list([x.value if isinstance(x, ast.Starred) else x for x in e.elts], st, fr)
+            if any(isinstance(x, ast.Starred) for x in e.elts):
+                parts_ = self._forced_list(parts_, fr)   # [*map(...)]: unpacking consumes the iterator
+            for r in parts_:
                 if r.kind == "exc":
                     out.append(r)
                 else:
